@@ -1,10 +1,10 @@
 #!/bin/sh
 # ./seedsweep.sh [workers] [pattern]  - regression over the stored seeded changes: each one is
 # applied to a scratch worktree of /repo (never /repo itself) and its own property's quick check,
-# built from a scratch copy of /verif, has to report a violation. Results: /tmp/seedsweep/results.txt
+# built from a scratch copy of /verif, has to report a violation. Results: /tmp/seedsweep_<pid>/results.txt
 set -u
 N="${1:-4}"; PAT="${2:-C*-*}"
-OUT=/tmp/seedsweep
+OUT=/tmp/seedsweep_$$
 rm -rf "$OUT"; mkdir -p "$OUT"
 ls -d /verif/seeded/$PAT | sort > "$OUT/all.txt"
 i=0
@@ -12,7 +12,7 @@ while read -r d; do i=$(( (i % N) + 1 )); echo "$d" >> "$OUT/list_$i.txt"; done 
 for i in $(seq 1 "$N"); do
   [ -f "$OUT/list_$i.txt" ] || continue
   (
-    W=/tmp/sw_$i
+    W=/tmp/sw_$$_$i
     rm -rf "$W"; mkdir -p "$W"
     git -C /repo worktree add --detach "$W/repo" HEAD >/dev/null 2>&1
     rsync -a --exclude target --exclude .git --exclude seeded --exclude replays --exclude evidence /verif/ "$W/verif/"
@@ -37,5 +37,5 @@ done
 wait
 git -C /repo worktree prune
 sort "$OUT/results.txt" > "$OUT/results.sorted.txt"
-echo "caught: $(grep -c caught "$OUT/results.txt")  missed: $(grep -c MISSED "$OUT/results.txt")  errors: $(grep -c error "$OUT/results.txt")"
+echo "results in $OUT"; echo "caught: $(grep -c caught "$OUT/results.txt")  missed: $(grep -c MISSED "$OUT/results.txt")  errors: $(grep -c error "$OUT/results.txt")"
 grep -v caught "$OUT/results.sorted.txt"
